@@ -553,4 +553,11 @@ theorem heartbeat_sections :
     PdModel.Generated.RegionCache.putRegionIsOneSection = true ∧
     PdModel.Generated.RegionCache.relevantRegionsIsOneSection = true := by decide
 
+/-- structure obligation for "answered with an error": in `Server.RegionHeartbeat` the stream a request came on is
+    bound to its store (`hbStreams.BindStream`) before the request is handled and before any `SendErr`, so the error
+    answer of a refused heartbeat – also the first message of a new stream – goes back on that stream -/
+theorem error_answer_goes_to_the_sender :
+    PdModel.Generated.RegionCache.bindStreamBeforeSendErr = true ∧
+    PdModel.Generated.RegionCache.bindStreamBeforeHandle = true := by decide
+
 end PdModel.RegionCache
